@@ -9,7 +9,7 @@ outcomes(facts, key) enumerates the acyclic entry->return paths of a body and gi
 Diverging paths (ending in a call without return target, e.g. panic) are reported with ret ("diverge", callee).
 """
 from .core import AnchorError, callee_name, strip
-from .sem import norm, nshow, atom_of
+from .sem import norm, nshow, atom_of, is_dropflag_cond
 from . import models
 
 
@@ -64,7 +64,7 @@ def outcomes(facts, key, limit=4000):
         atoms = []
         for a, b in zip(path, path[1:]):
             eg = body.edge_guards(a, b)
-            if eg is not None:
+            if eg is not None and not is_dropflag_cond(eg[0]):
                 atoms.append(models.canon_atom(atom_of(eg[0], eg[1])))
         effects = []
         calls = []
